@@ -9,30 +9,117 @@ namespace GoImap.NumSet
 def Range.WF (r : Range) : Prop :=
   r.start < W ∧ r.stop < W ∧ (r.start = 0 → r.stop = 0) ∧ (r.stop ≠ 0 → r.start ≤ r.stop)
 
+/-- the ordered part of `merge`: `s'` starts at or before `t'` -/
+def mergeCore (s' t' orig : Range) : Range × Bool :=
+  if (s'.stop ≥ t'.stop && t'.stop ≠ 0) || s'.stop = 0 then (s', true)
+  else if (s'.stop + 1) % W ≥ t'.start || s'.stop = W - 1 then (⟨s'.start, t'.stop⟩, true)
+  else (orig, false)
+
+theorem Range.merge_eq (s t : Range) :
+    s.merge t =
+      if s = t then (s, true)
+      else if s.start ≠ 0 && t.start ≠ 0 then
+        (if s.start > t.start then mergeCore t s s else mergeCore s t s)
+      else if s.start = 0 then
+        if t.stop = 0 then (t, true) else (s, false)
+      else if s.stop = 0 then (s, true)
+      else (s, false) := by
+  unfold Range.merge mergeCore
+  by_cases h : s.start > t.start <;> simp only [h, if_true, if_false]
+
 theorem Range.merge_fail (s t : Range) (h : (s.merge t).2 = false) : (s.merge t).1 = s := by
-  unfold Range.merge at h ⊢
+  rw [Range.merge_eq] at h ⊢
+  unfold mergeCore at h ⊢
   split_ifs at h ⊢ <;> simp_all
 
 theorem Range.contains_iff (r : Range) (q : Nat) :
     r.contains q = true ↔
       (q = 0 ∧ r.stop = 0) ∨ (q ≠ 0 ∧ r.start ≠ 0 ∧ r.start ≤ q ∧ (q ≤ r.stop ∨ r.stop = 0)) := by
   unfold Range.contains
-  by_cases hq : q = 0 <;> simp [hq]
+  by_cases hq : q = 0 <;> simp [hq, and_assoc]
 
 theorem Range.less_iff (r : Range) (q : Nat) :
     r.less q = true ↔ (r.stop < q ∨ q = 0) ∧ r.stop ≠ 0 := by
   simp [Range.less]
 
+theorem mergeCore_snd_iff (s t o : Range) :
+    (mergeCore s t o).2 = true ↔
+      ((t.stop ≤ s.stop ∧ t.stop ≠ 0) ∨ s.stop = 0) ∨
+        (t.start ≤ (s.stop + 1) % W ∨ s.stop = W - 1) := by
+  unfold mergeCore
+  simp only [ge_iff_le, ne_eq, Bool.or_eq_true, Bool.and_eq_true, decide_eq_true_eq]
+  split_ifs with h1 h2
+  · simp only [h1, true_or]
+  · simp only [h2, or_true]
+  · simp only [h1, h2, or_self]
+
+theorem mergeCore_fst (s t o : Range) :
+    (mergeCore s t o).1 =
+      if (t.stop ≤ s.stop ∧ t.stop ≠ 0) ∨ s.stop = 0 then s
+      else if t.start ≤ (s.stop + 1) % W ∨ s.stop = W - 1 then ⟨s.start, t.stop⟩ else o := by
+  unfold mergeCore
+  simp only [ge_iff_le, ne_eq, Bool.or_eq_true, Bool.and_eq_true, decide_eq_true_eq]
+  split_ifs <;> rfl
+
+theorem mergeCore_contains (s t o : Range) (hs : s.WF) (ht : t.WF)
+    (h1 : s.start ≠ 0) (h2 : t.start ≠ 0) (h3 : s.start ≤ t.start)
+    (h : (mergeCore s t o).2 = true) (q : Nat) (hq : q < W) :
+    (mergeCore s t o).1.contains q = true ↔ (s.contains q = true ∨ t.contains q = true) := by
+  obtain ⟨a, b⟩ := s
+  obtain ⟨c, d⟩ := t
+  rw [mergeCore_snd_iff] at h
+  rw [mergeCore_fst]
+  unfold Range.WF at hs ht
+  simp only [W] at *
+  by_cases c1 : (d ≤ b ∧ d ≠ 0 ∨ b = 0)
+  · simp only [c1, if_true, Range.contains_iff]; omega
+  · by_cases c2 : c ≤ (b + 1) % 4294967296 ∨ b = 4294967296 - 1
+    · simp only [c1, c2, if_true, if_false, Range.contains_iff]; omega
+    · omega
+
+theorem mergeCore_wf (s t o : Range) (hs : s.WF) (ht : t.WF)
+    (h1 : s.start ≠ 0) (h2 : t.start ≠ 0) (h3 : s.start ≤ t.start)
+    (h : (mergeCore s t o).2 = true) : (mergeCore s t o).1.WF := by
+  obtain ⟨a, b⟩ := s
+  obtain ⟨c, d⟩ := t
+  rw [mergeCore_snd_iff] at h
+  rw [mergeCore_fst]
+  unfold Range.WF at hs ht ⊢
+  simp only [W] at *
+  by_cases c1 : (d ≤ b ∧ d ≠ 0 ∨ b = 0)
+  · simp only [c1, if_true]; exact hs
+  · by_cases c2 : c ≤ (b + 1) % 4294967296 ∨ b = 4294967296 - 1
+    · simp only [c1, c2, if_true, if_false]; omega
+    · omega
+
 theorem Range.merge_contains (s t : Range) (hs : s.WF) (ht : t.WF)
     (h : (s.merge t).2 = true) (q : Nat) (hq : q < W) :
     (s.merge t).1.contains q = (s.contains q || t.contains q) := by
-  obtain ⟨a, b⟩ := s
-  obtain ⟨c, d⟩ := t
   rw [Bool.eq_iff_iff, Bool.or_eq_true]
-  simp only [Range.contains_iff]
-  unfold Range.WF at hs ht
-  unfold Range.merge at h ⊢
-  simp only [W] at *
-  split_ifs at h ⊢ <;> simp_all <;> omega
+  rw [Range.merge_eq] at h ⊢
+  simp only [ne_eq, Bool.and_eq_true, decide_eq_true_eq, gt_iff_lt] at h ⊢
+  split_ifs at h ⊢ with e1 e2 e3 e4 e5 e6
+  · subst e1; simp
+  · rw [mergeCore_contains t s s ht hs e2.2 e2.1 (by omega) h q hq]; exact or_comm
+  · exact mergeCore_contains s t s hs ht e2.1 e2.2 (by omega) h q hq
+  · have := hs.2.2.1 e4
+    simp only [Range.contains_iff]; omega
+  · have : t.start = 0 := by
+      by_cases h0 : t.start = 0
+      · exact h0
+      · exact absurd ⟨e4, h0⟩ e2
+    have := ht.2.2.1 this
+    simp only [Range.contains_iff]; omega
+
+theorem Range.merge_wf (s t : Range) (hs : s.WF) (ht : t.WF)
+    (h : (s.merge t).2 = true) : (s.merge t).1.WF := by
+  rw [Range.merge_eq] at h ⊢
+  simp only [ne_eq, Bool.and_eq_true, decide_eq_true_eq, gt_iff_lt] at h ⊢
+  split_ifs at h ⊢ with e1 e2 e3 e4 e5 e6
+  · exact hs
+  · exact mergeCore_wf t s s ht hs e2.2 e2.1 (by omega) h
+  · exact mergeCore_wf s t s hs ht e2.1 e2.2 (by omega) h
+  · exact ht
+  · exact hs
 
 end GoImap.NumSet
